@@ -461,7 +461,7 @@ def run(rep, tier):
     specs = [("pdb", (1, "plain", 0, False, "std")), ("pdb", (1, "wide", 1, True, "std")), ("pdb", (1, "round", 3, False, "std")),
              ("pdb", (2, "plain", 2, False, "same-residue")),
              ("pdb", (3, "plain", 0, False, "same-residue")),
-             ("cross", ("pdb-cif-pdb", 0)), ("cross", ("pdb-cif-pdb", 1)), ("cross", ("cif-cif", 0)), ("cross", ("cif-cif", 4))]
+             ("cross", ("pdb-cif-pdb", 0)), ("cross", ("pdb-cif-pdb", 1)), ("cross", ("pdb-cif-pdb", 2)), ("cross", ("cif-cif", 0)), ("cross", ("cif-cif", 4))]
     if tier != "quick":
         specs += [("pdb", (2, "plain", 0, False, "std")), ("pdb", (1, "plain", 4, False, "std")), ("pdb", (1, "plain", 5, False, "std")), ("pdb", (2, "wide", 0, True, "std")),
                   ("pdb", (3, "plain", 0, False, "std")), ("cross", ("pdb-cif-pdb", 2)), ("cross", ("cif-cif", 3)), ("cross", ("cif-cif", 5))]
